@@ -4,6 +4,18 @@ import warnings
 warnings.filterwarnings('ignore')
 sys.path.insert(0, os.path.dirname(os.path.abspath(__file__)))
 from sim.cli import main  # noqa
+if len(sys.argv) > 1 and sys.argv[1] == '_exec':
+    # execute one plan file in this fresh interpreter and print its verdict (used by the hermetic
+    # fallback of the shrinker when a violation depends on state the library keeps between runs)
+    import json
+    from sim import core, engines, seams
+    seams.import_phylib()
+    doc = json.load(open(sys.argv[2]))
+    res = core.execute_plan(engines.get(doc['engine']), doc['plan'], doc['property'],
+                            doc.get('tier', 'quick'))
+    print(json.dumps({'verdict': res.verdict, 'signature': res.signature,
+                      'log_digest': res.log_digest}))
+    sys.exit(0)
 if len(sys.argv) > 1 and sys.argv[1] == '_digests':
     from sim import selftest
     sys.exit(selftest._child_digests(sys.argv[2:]))
